@@ -234,6 +234,19 @@ def check_lattice_vectorised(case):
     if not (np.array_equal(np.asarray(out, dtype=float), keep1) and np.array_equal(np.asarray(out2, dtype=float), keep2)):
         raise Fail("hp2dec_v / dec2hp_v: an array returned earlier was changed by a later call", expected="results owned by the caller",
                    observed={"degree": d}, bucket="vectorised result aliased")
+    # the same values as a table: N x 2 (latitude, longitude) rows of mixed sign, and its transpose, give the element-wise results
+    n2 = (len(hp) // 2) * 2
+    if n2 >= 4:
+        sgn = np.where(np.arange(n2) % 2 == 0, 1.0, -1.0)
+        for name, fn, src in (("hp2dec_v", a.hp2dec_v, np.abs(hp[:n2]) * sgn), ("dec2hp_v", a.dec2hp_v, np.abs(dec[:n2]) * sgn)):
+            flat = np.asarray(fn(src.copy()), dtype=float)
+            for lay, arr in (("N x 2", src.reshape(-1, 2).copy()), ("2 x N", src.reshape(-1, 2).T.copy())):
+                tab = np.asarray(fn(arr), dtype=float)
+                ref = flat.reshape(-1, 2) if lay == "N x 2" else flat.reshape(-1, 2).T
+                if tab.shape != ref.shape or not np.array_equal(tab, ref):
+                    bad = np.argwhere(tab != ref)[:1].tolist() if tab.shape == ref.shape else "shape"
+                    raise Fail("%s on a %s table differs from the element-wise result" % (name, lay), expected="same values as the 1-D call",
+                               observed={"degree": d, "first_difference_at": bad}, bucket=name + " 2-D")
     h0, d0 = hp.copy(), dec.copy()
     a.hp2dec_v(h0)
     a.dec2hp_v(d0)
